@@ -295,6 +295,125 @@ class Term:
         return out
 
 
+
+class BitInt:
+    """machine integer whose bits are field polynomials over *binary* variables (bit i has weight 2^i): shifts, masks and the
+    bitwise operators are exact, products of bits are reduced with x^2 = x. Used to interpret code that decomposes symbolic
+    u32 values into limbs and bits (the bitwise chiplet)."""
+    WIDTH = 64
+    __slots__ = ("bits",)
+
+    def __init__(self, bits):
+        bits = list(bits)[:BitInt.WIDTH]
+        self.bits = bits + [Poly() for _ in range(BitInt.WIDTH - len(bits))]
+
+    @staticmethod
+    def of(x):
+        if isinstance(x, BitInt):
+            return x
+        if isinstance(x, bool):
+            x = int(x)
+        if isinstance(x, int) and x >= 0:
+            return BitInt([Poly.const((x >> i) & 1) for i in range(BitInt.WIDTH)])
+        raise Unanalysable("not a bit-decomposable integer: %r" % (x,))
+
+    @staticmethod
+    def reduce(p):
+        """x^e -> x for every variable (all variables of a BitInt are binary)"""
+        if not isinstance(p, Poly) or p.degree() <= 1:
+            return p
+        r = {}
+        for m, c in p.t.items():
+            mm = tuple(sorted((v, 1) for v, e in m))
+            r[mm] = (r.get(mm, 0) + c) % P
+        return Poly({m: c for m, c in r.items() if c})
+
+    def const_value(self):
+        v = 0
+        for i, b in enumerate(self.bits):
+            c = b.const_value()
+            if c is None:
+                return None
+            v |= c << i
+        return v
+
+    def to_poly(self):
+        r = Poly()
+        for i, b in enumerate(self.bits):
+            if b.t:
+                r = r + b.scale(1 << i)
+        return r
+
+    def __rshift__(self, n):
+        if not isinstance(n, int):
+            raise Unanalysable("shift of a bit-decomposed integer by %r" % (n,))
+        return BitInt(self.bits[n:])
+
+    def __lshift__(self, n):
+        if not isinstance(n, int):
+            raise Unanalysable("shift of a bit-decomposed integer by %r" % (n,))
+        return BitInt([Poly() for _ in range(n)] + self.bits[:BitInt.WIDTH - n])
+
+    def _zip(self, o, f):
+        o = BitInt.of(o)
+        return BitInt([BitInt.reduce(f(x, y)) for x, y in zip(self.bits, o.bits)])
+
+    def __and__(self, o):
+        return self._zip(o, lambda x, y: x * y)
+    __rand__ = __and__
+
+    def __or__(self, o):
+        return self._zip(o, lambda x, y: x + y - x * y)
+    __ror__ = __or__
+
+    def __xor__(self, o):
+        return self._zip(o, lambda x, y: x + y - (x * y).scale(2))
+    __rxor__ = __xor__
+
+    def __eq__(self, o):
+        a, b = self.const_value(), (o.const_value() if isinstance(o, BitInt) else o)
+        if a is None or b is None:
+            raise Unanalysable("comparison of a symbolic bit-decomposed integer")
+        return a == b
+
+    def __ne__(self, o):
+        return not self.__eq__(o)
+
+    def _cmp(self, o):
+        a, b = self.const_value(), (o.const_value() if isinstance(o, BitInt) else o)
+        if a is None or b is None:
+            # an upper bound from the highest possibly non-zero bit decides comparisons like x > u32::MAX
+            hi = max([i for i, bt in enumerate(self.bits) if bt.t], default=-1)
+            if isinstance(b, int) and (1 << (hi + 1)) - 1 <= b:
+                return -1 if (1 << (hi + 1)) - 1 < b else -2      # x <= b always (strictly less or possibly equal)
+            raise Unanalysable("comparison of a symbolic bit-decomposed integer")
+        return (a > b) - (a < b)
+
+    def __gt__(self, o):
+        return self._cmp(o) > 0
+
+    def __ge__(self, o):
+        c = self._cmp(o)
+        if c == -2:
+            raise Unanalysable("comparison of a symbolic bit-decomposed integer")
+        return c >= 0
+
+    def __lt__(self, o):
+        c = self._cmp(o)
+        if c == -2:
+            raise Unanalysable("comparison of a symbolic bit-decomposed integer")
+        return c < 0
+
+    def __le__(self, o):
+        return self._cmp(o) <= 0
+
+    def __hash__(self):
+        return id(self)
+
+    def __repr__(self):
+        return "bits<%r>" % (self.to_poly(),)
+
+
 def is_sym(x):
     return isinstance(x, (Term, Poly, Sup)) and not (isinstance(x, Poly) and x.const_value() is not None)
 
@@ -1009,6 +1128,9 @@ class Interp:
                 return x
             if isinstance(x, Term):
                 return Term("as_" + ty, x)
+            if isinstance(x, BitInt):
+                bits = UINT_BITS.get(ty) or 64
+                return BitInt(x.bits[:bits])
             if isinstance(x, Opaque) and getattr(x, "sym_at", None) is not None and getattr(x, "field", None) is not None:
                 return Term("as_" + ty, Term(x.name))      # an unknown value of an orchestrating skeleton (execmodel.Havoc)
             raise Unanalysable("cast of %r" % (x,))
